@@ -57,6 +57,21 @@ CLAIMED.update({
             TOBS_NOTE + "Map iteration order is runtime behaviour: determinism is exercised (65 repetitions), the model is a function.", "DESIGN.md 4/C15"),
 })
 
+API_NOTE = ("Trusted: Coq kernel, T-obs dumper, extraction, OCaml driver, Go harness (scripted port). The hand-written model Api.v is tied to vedirectapi by running "
+            "every generated case on both and comparing results op by op. ")
+
+CLAIMED.update({
+    "C09": ("Coq theorems (readers = decode_register of the obtained payload for every register/state/script; exact rational scaling; enum and field-list lemmas over the regenerated tables) + correspondence on every register of every product list",
+            "C09_readers is proved for every register, driver state, script and fault schedule; C09_number states the exact value raw/factor+offset; C09_enum (every integer), C09_fieldlist (no documented bit lost to the constructor width), C09_wrapped (errors stay matchable), C09_all_registers (all 65536 ids: non-zero factors, decoders present). The implementation is run on every register of every distinct product list with boundary/random raw values, unsupported widths, NUL/Unicode-space texts, undefined enum codes and device/transport errors.",
+            API_NOTE + "float64 rounding is not modelled (exact rationals, tolerance 1e-9).", "DESIGN.md 4/C09"),
+    "C10": ("Coq theorem by induction over the register sequence (prefix, exactly once, abort state, cancellation points) + correspondence + independent expectation judge",
+            "C10_stream is proved for every register sequence, cancellation point, accumulator, driver state, device script and fault schedule: delivered values are a prefix of the plan in order, each once; nothing is read at or after a check point where the context is done; normal end iff everything was delivered; on failure the state is the one the failing read left. C10_plan/C10_no_handler_no_io/C10_io_only_for_read_registers give grouping and I/O only for set handlers. Implementation: all product classes, all 16 handler subsets, failure at every position, cancellation before / in every k-th callback / in the k-th Write, random sub-lists, map variant.",
+            API_NOTE + "A concurrent cancel() is modelled by the number of registers delivered before it becomes visible; goroutine scheduling itself is not modelled.", "DESIGN.md 4/C10"),
+    "C11": ("Coq theorems (connect iff both exchanges succeed and the id has a list; supported class via C12 for all ids; frame order) + exhaustive correspondence over all 65536 device ids",
+            "C11_iff, C11_supported, C11_order are proved over the model; the model and the real NewRegisterApi are compared on all 65536 device ids on every run (the domain is finite: exact), plus silent/malformed/faulty devices; the judge uses the class specification of C12, not the code's type switch.",
+            API_NOTE, "DESIGN.md 4/C11"),
+})
+
 PENDING_REASON = "check not built yet in this session (work in progress; see DESIGN.md section 10)"
 
 
@@ -85,7 +100,7 @@ def main():
             "guard": "verif",
             "enable": "go build -tags verif (harness module /verif/harness with replace => /repo)",
             "baseline_off_cmd": "cd /repo && go test -mod=mod -vet=off -count=1 ./...",
-            "source_commits": [],
+            "source_commits": ["5f0e031"],
             "add_only": True,
         },
         "engines": [
